@@ -525,6 +525,15 @@ theorem world_liquidation_and_bankruptcy_keep_shape :
     account keeps 16 slots, at most one position per bank, and its positions ordered by bank key as the risk engine expects. -/
 theorem world_shape_history (w : WState) (ops : List WOp) (h : WShape w) : WShape (w.run ops) := run_shape ops w h
 
+/-- **world_transfer_spec**: in the world state machine an accepted `transfer_to_new_account` hands the WHOLE slot array to the
+    new account (under the key asked for) and leaves the old account with sixteen empty slots; `world_shape_history` and
+    `world_ledger_history` (C02) therefore run through transfers too: the world gains an account, no position is duplicated or
+    lost, every array keeps its shape -/
+theorem world_transfer_spec {g : GroupV} {a o n : AcctV} {signer newKey newAuth : Nat} {ok : Bool}
+    (h : transferIx g a signer newKey newAuth ok = .ok (o, n)) :
+    o.slots = Transfer.zeroedSlots ∧ n.slots = a.slots ∧ o.key = a.key ∧ n.key = newKey ∧ Shape o.slots :=
+  ⟨(transferIx_ok h).1, (transferIx_ok h).2.1, (transferIx_ok h).2.2.1, (transferIx_ok h).2.2.2, by rw [(transferIx_ok h).1]; exact zeroed_shape⟩
+
 /-- a fresh account (16 empty slots) has the shape -/
 theorem empty_account_shape : Shape (List.replicate 16 Account.emptySlot) := by
   refine ⟨by simp, by simp [keys, Account.emptySlot, List.replicate, List.filter], ?_⟩
